@@ -44,8 +44,17 @@ def append_revision(rng, case, opts, rev):
             elif what == "struct":
                 f["nodes"].insert(pos, {"k": "struct", "name": nm.new("S"), "fields": [{"type": "uint32", "count": 2, "name": nm.new("f")}]})
             else:
-                f["nodes"].insert(pos, {"k": "interface", "name": nm.new("I"), "base": None,
-                                        "members": [gen.gen_method(rng, nm, opts, structs, ifaces)]})
+                # a new, unrelated interface; its methods may well be called like existing ones
+                # of other interfaces (open/close/get ...): interface scopes are separate
+                ms = [gen.gen_method(rng, nm, opts, structs, ifaces) for _ in range(rng.randint(1, 3))]
+                old_names = sorted({m["name"] for ff in c["files"] for x in ff["nodes"] if x["k"] == "interface"
+                                    for m in x["members"] if m["k"] == "method"})
+                for m in ms:
+                    if old_names and rng.random() < 0.7:
+                        cand = rng.choice(old_names)
+                        if cand not in {x["name"] for x in ms}:
+                            m["name"] = cand
+                f["nodes"].insert(pos, {"k": "interface", "name": nm.new("I"), "base": None, "members": ms})
     return c, touched
 
 
